@@ -1,5 +1,5 @@
 CONSTANTS JCs = {1} Horizon = 10 Ids = {0,1,2,3} Windows <- W1 MaxMissed = 2 MaxDown = 3 MaxOps = 3 MaxLag = 2 MaxFaults = 0 MaxRestarts = 1 MaxTick = 4
-  Pols = {"Allow"} PreBoot = TRUE WithRecon = FALSE
+  Pols = {"Allow"} PreBoot = TRUE WithRecon = FALSE Workers = {1}
 SPECIFICATION Spec
 INVARIANTS TypeOK
 PROPERTIES C01_C03_C04_Pass C04_BootHeap
